@@ -473,7 +473,29 @@ type report struct {
 	Body    string     `json:"body_hex"`
 	Ops     []string   `json:"ops_concrete"`
 	Cond    string     `json:"cond_concrete,omitempty"`
+	Expect  []string   `json:"expected"` // per outcome of the specification: status and document bytes / error classes
 	Case    *CaseJ     `json:"case"`
+}
+
+// expectations renders the specification's outcomes of a case in concrete terms.
+func expectations(c *CaseJ, cc *Concrete) []string {
+	var out []string
+	for k, o := range c.Out {
+		s := o.St
+		switch o.St {
+		case "ok":
+			if b, err := encodeDoc(cc.exp[k], 0); err == nil {
+				s += " " + hex.EncodeToString(b)
+			}
+		case "fail":
+			s += " " + strings.Join(o.E, "|")
+		}
+		if len(o.S) > 0 {
+			s += " [under " + strings.Join(o.S, ",") + "]"
+		}
+		out = append(out, s)
+	}
+	return out
 }
 
 func describe(cc *Concrete) (ops []string, cond string) {
@@ -566,7 +588,7 @@ func runMode(outPath string, files []string) error {
 	st := &stats{bySwitch: map[string]int{}, byFam: map[string]int{}, byClass: map[string]int{}}
 	var stMu sync.Mutex
 	var samples []any
-	distinct := map[[20]byte]struct{}{} // distinct non-trivial abstract cases (body, ops, cond)
+	distinct := map[[20]byte]struct{}{}     // distinct non-trivial abstract cases (body, ops, cond)
 	selftest := os.Getenv("PATCH_SELFTEST") // "corrupt": damage the expected documents (binding self-test)
 	maxReports := 200000
 	if v := os.Getenv("PATCH_MAXREPORTS"); v != "" {
@@ -693,7 +715,7 @@ func runMode(outPath string, files []string) error {
 							cp := c
 							emit(report{F: c.F, B: c.B, I: c.I, J: c.J, Style: style, Level: "func", Matched: matched, Class: ob.Class,
 								Out: hex.EncodeToString(ob.Out), Err: ob.Err, Note: note, Body: hex.EncodeToString(cc.Body),
-								Ops: ops, Cond: cond, Case: &cp})
+								Ops: ops, Cond: cond, Expect: expectations(&c, cc), Case: &cp})
 						}
 					}
 					stMu.Unlock()
@@ -826,7 +848,7 @@ func corruptDoc(d *Doc) bool {
 
 func main() {
 	if len(os.Args) < 4 {
-		fmt.Fprintln(os.Stderr, "usage: patch run|rig <results.ndjson> <tlc-output>...")
+		fmt.Fprintln(os.Stderr, "usage: patch run|rig|swamp <results.ndjson> <tlc-output>...")
 		os.Exit(2)
 	}
 	var err error
@@ -835,6 +857,8 @@ func main() {
 		err = runMode(os.Args[2], os.Args[3:])
 	case "rig":
 		err = rigMode(os.Args[2], os.Args[3:])
+	case "swamp":
+		err = swampMode(os.Args[2], os.Args[3:])
 	default:
 		err = fmt.Errorf("unknown mode %q", os.Args[1])
 	}
